@@ -489,27 +489,52 @@ def gen_variables(schema, tape, op, stream="vars", omit_pct=30, null_pct=15):
 def mirror_post(doc, tape):
     """Doc post-processing: one field that selects through fragments gets an aliased twin whose selection set is the
     same in REVERSE order (the same fragments reached in two orders under one runtime type: response keys follow the
-    first appearance in each)."""
+    first appearance in each).  Two fresh fragments on the field's type, both selecting one composite field under the
+    same fresh response key with DIFFERENT sub-selections, are spread in it first, so that merged field nodes of one key
+    come in the two orders."""
     import copy as _copy
     t = tape.sub("mirror")
     if not t.chance(35):
         return
+    schema = getattr(doc, "schema_model", None)
+    if schema is None:
+        return
     cands = []
 
-    def walk(sels, container, is_sub_root):
+    def walk(sels, container, is_sub_root, parent):
         for sel in sels:
-            if sel.kind == "field" and sel.sels:
-                if not is_sub_root and len(sel.sels) >= 2 and any(x.kind in ("spread", "inline") for x in sel.sels):
-                    cands.append((container, sel))
-                walk(sel.sels, sel, False)
+            if sel.kind == "field" and sel.sels and not sel.name.startswith("__"):
+                fd = schema.fields_of(parent).get(sel.name) if schema.kind_of(parent) in ("OBJECT", "INTERFACE") else None
+                if fd is None:
+                    continue
+                ft = named(fd.type)
+                if not is_sub_root:
+                    cands.append((container, sel, ft))
+                walk(sel.sels, sel, False, ft)
             elif sel.kind == "inline":
-                walk(sel.sels, sel, is_sub_root)
+                walk(sel.sels, sel, is_sub_root, sel.cond or parent)
 
     for d in doc.defs:
-        walk(d.sels, d, d.kind == "operation" and d.op == "subscription")
+        if d.kind == "operation":
+            root = {"query": schema.query, "mutation": schema.mutation, "subscription": schema.subscription}[d.op]
+            walk(d.sels, d, d.op == "subscription", root)
+        else:
+            walk(d.sels, d, False, d.cond)
     if not cands:
         return
-    container, f = cands[t.draw(len(cands))]
+    container, f, ft = cands[t.draw(len(cands))]
+    if schema.kind_of(ft) in ("OBJECT", "INTERFACE") and schema.possible(ft):  # (an interface nobody implements has no possible type)
+        comp = [fd for fd in schema.fields_of(ft).values()
+                if schema.is_composite(named(fd.type)) and not any(is_nn(ad.type) and ad.default is ABSENT for ad in fd.args.values())]
+        names = {d.name for d in doc.defs if d.kind == "fragment"}
+        if comp and "MirA" not in names:
+            fd = comp[t.draw(len(comp))]
+            doc.defs.append(Fragment("MirA", ft, [Field(fd.name, "mzz", [], [], [Field("__typename", "ta")])]))
+            doc.defs.append(Fragment("MirB", ft, [Field(fd.name, "mzz", [], [], [Field("__typename", "tb")])]))
+            f.sels.append(Spread("MirA"))
+            f.sels.append(Spread("MirB"))
+            if isinstance(getattr(doc, "probes", None), dict):
+                doc.probes["merged_nodes_in_two_orders"] = 1
     twin = _copy.deepcopy(f)
     n = 0
     taken = {getattr(x, "alias", None) or getattr(x, "name", None) for x in container.sels}
@@ -521,4 +546,3 @@ def mirror_post(doc, tape):
     probes = getattr(doc, "probes", None)
     if isinstance(probes, dict):
         probes["mirrored_selection_set"] = probes.get("mirrored_selection_set", 0) + 1
-
